@@ -287,6 +287,7 @@ func cloneAll(es []dEntry) []dEntry {
 func (d *Dir) Setup(s *Sim) {
 	d.mUsers, d.mGroups, d.mAnon = cloneAll(d.Users), cloneAll(d.Groups), d.Anon
 	d.inflight, d.dead = -1, map[int]bool{}
+	s.W.TagEvents = true
 	if s.Ch.Choose(3) == 2 {
 		d.faults = 1
 	}
